@@ -2,11 +2,15 @@
 package main
 
 import (
+	"bufio"
+	"bytes"
+	"crypto/sha1"
 	"encoding/binary"
 	"fmt"
 	"io"
 	"math"
 	"strings"
+	"testing/iotest"
 
 	"github.com/pinealctx/neptune/bytex"
 
@@ -720,9 +724,94 @@ func reuse(c *seq.Ctx) {
 	}
 }
 
+// readerKinds: the stream reader over every kind of io.Reader a caller is likely to hand it (library
+// wrappers with their own buffering, short reads, data-with-error, limits, concatenation), for every
+// stream-readable item and for string / raw fields on both sides of the wrappers' buffer sizes (16,
+// 4096) and of 64 KiB, complete and cut short - it must agree with the buffer reader on the same bytes.
+func readerKinds(c *seq.Ctx, its []item) {
+	type wrap struct {
+		name string
+		mk   func(in []byte) io.Reader
+	}
+	wraps := []wrap{
+		{"bytes.Reader", func(in []byte) io.Reader { return bytes.NewReader(in) }},
+		{"strings.Reader", func(in []byte) io.Reader { return strings.NewReader(string(in)) }},
+		{"bufio(16)", func(in []byte) io.Reader { return bufio.NewReaderSize(bytes.NewReader(in), 16) }},
+		{"bufio(default)", func(in []byte) io.Reader { return bufio.NewReader(bytes.NewReader(in)) }},
+		{"bufio(16) over one-byte reads", func(in []byte) io.Reader { return bufio.NewReaderSize(iotest.OneByteReader(bytes.NewReader(in)), 16) }},
+		{"iotest.OneByteReader", func(in []byte) io.Reader { return iotest.OneByteReader(bytes.NewReader(in)) }},
+		{"iotest.HalfReader", func(in []byte) io.Reader { return iotest.HalfReader(bytes.NewReader(in)) }},
+		{"iotest.DataErrReader", func(in []byte) io.Reader { return iotest.DataErrReader(bytes.NewReader(in)) }},
+		{"io.LimitReader", func(in []byte) io.Reader {
+			return io.LimitReader(bytes.NewReader(append(append([]byte(nil), in...), 0xEE, 0xEE)), int64(len(in)))
+		}},
+		{"io.MultiReader", func(in []byte) io.Reader {
+			return io.MultiReader(bytes.NewReader(in[:len(in)/2]), bytes.NewReader(nil), bytes.NewReader(in[len(in)/2:]))
+		}},
+		{"bufio.ReadWriter", func(in []byte) io.Reader {
+			return bufio.NewReadWriter(bufio.NewReaderSize(bytes.NewReader(in), 32), bufio.NewWriter(io.Discard))
+		}},
+	}
+	type prog struct {
+		name  string
+		enc   []byte
+		readR func(r *bytex.ReaderX) (string, error)
+		readB func(b *bytex.BufferX) (string, error)
+	}
+	var progs []prog
+	for i := range its {
+		if its[i].readR == nil || its[i].want == "" {
+			continue
+		}
+		b := bytex.NewBufferX()
+		its[i].write(b)
+		progs = append(progs, prog{its[i].name, append([]byte(nil), b.Bytes()...), its[i].readR, its[i].readB})
+	}
+	hash := func(bs []byte) string { return fmt.Sprintf("len=%d sum=%x", len(bs), sha1.Sum(bs)) }
+	for _, n := range []int{0, 1, 11, 12, 13, 15, 16, 17, 27, 28, 29, 31, 32, 33, 4091, 4092, 4093, 4095, 4096, 4097, 65535, 65536, 65537, 70000} {
+		n := n
+		payload := make([]byte, n)
+		for i := range payload {
+			payload[i] = byte('a' + i%26)
+		}
+		b := bytex.NewBufferX()
+		b.WriteString(string(payload))
+		progs = append(progs, prog{fmt.Sprintf("string(%d bytes)", n), append([]byte(nil), b.Bytes()...),
+			func(r *bytex.ReaderX) (string, error) { v, e := r.ReadString(); return hash([]byte(v)), e },
+			func(b *bytex.BufferX) (string, error) { v, e := b.ReadString(); return hash([]byte(v)), e }})
+		progs = append(progs, prog{fmt.Sprintf("ReadN(%d)", n), payload,
+			func(r *bytex.ReaderX) (string, error) { v, e := r.ReadN(n); return hash(v), e },
+			func(b *bytex.BufferX) (string, error) { v, e := b.ReadN(n); return hash(v), e }})
+		progs = append(progs, prog{fmt.Sprintf("ZReadN(%d)", n), payload,
+			func(r *bytex.ReaderX) (string, error) { v, e := r.ZReadN(n); return hash(v), e },
+			func(b *bytex.BufferX) (string, error) { v, e := b.ZReadN(n); return hash(v), e }})
+	}
+	for _, pr := range progs {
+		cuts := map[int]bool{len(pr.enc): true, 0: true, 1: true, len(pr.enc) - 1: true, len(pr.enc) / 2: true, 4: true, 5: true}
+		for cut := range cuts {
+			if cut < 0 || cut > len(pr.enc) {
+				continue
+			}
+			in := pr.enc[:cut]
+			wantV, wantE, _ := guard(func() (string, error) { return pr.readB(bytex.NewReadableBufferX(append([]byte(nil), in...))) })
+			for _, w := range wraps {
+				rx := bytex.NewReaderX(w.mk(append([]byte(nil), in...)))
+				v, e, pn := guard(func() (string, error) { return pr.readR(rx) })
+				bad := ""
+				if pn != "" || (e != nil) != (wantE != nil) || (e == nil && v != wantV) {
+					bad = fmt.Sprintf("%s, %d of %d encoded bytes, source %s: ReaderX = %s err %v panic %q; BufferX on the same bytes = %s err %v", pr.name, cut, len(pr.enc), w.name, v, e, pn, wantV, wantE)
+				}
+				c.Case(fmt.Sprintf("readers/%s/complete=%v/ok=%v", w.name, cut == len(pr.enc), e == nil), bad, "ReaderX over "+w.name+" disagrees with BufferX", func() interface{} {
+					return map[string]interface{}{"item": pr.name, "bytes": cut, "source": w.name}
+				})
+			}
+		}
+	}
+}
+
 func main() {
 	r := ev.Start("C10")
-	r.Rule("round trip: every sequence of typed writes (length <= L over ~95 boundary-valued items) read back through the writing buffer, a fresh readable buffer and the stream reader; hostile: every reader method on all byte strings up to a length over {00,01,7f,80,ff}, every truncation of every valid encoding, oversized varints/length prefixes, against reference decoders; fragmentation: every composition (chunking) of inputs up to a length with both legal end-of-stream styles, stream reader vs buffer reader; reuse: every constructor x message sizes around every allocation threshold up to 1 MiB x three ways of filling x 0/1/all bytes consumed, Reset, emptiness, next message round trip, two cycles; distinct = outcome classes (family, kind, ok/error)")
+	r.Rule("round trip: every sequence of typed writes (length <= L over ~95 boundary-valued items) read back through the writing buffer, a fresh readable buffer and the stream reader; hostile: every reader method on all byte strings up to a length over {00,01,7f,80,ff}, every truncation of every valid encoding, oversized varints/length prefixes, against reference decoders; fragmentation: every composition (chunking) of inputs up to a length with both legal end-of-stream styles, stream reader vs buffer reader; reader kinds: every stream-readable item and string/raw fields of 0..70000 bytes (both sides of 16, 4096 and 64 KiB), complete and cut short, through ReaderX over 11 kinds of source (bytes/strings readers, bufio with 16/32/default buffers, one-byte, half, data-with-error, limit, multi) against BufferX; reuse: every constructor x message sizes around every allocation threshold up to 1 MiB x three ways of filling x 0/1/all bytes consumed, Reset, emptiness, next message round trip, two cycles; distinct = outcome classes (family, kind, ok/error)")
 	r.Assume("reference decoders: little-endian fixed width, encoding/binary varints, u32 length prefix", "an io.Reader may return fewer bytes than asked and may return (n, io.EOF) with the last bytes")
 	its := items()
 	L := r.Pick(3, 4)
@@ -731,6 +820,7 @@ func main() {
 		{Name: "fragmentation", Run: func(c *seq.Ctx) { fragmentation(c, its, r.Pick(12, 14)) }},
 		{Name: "rewrite", Run: func(c *seq.Ctx) { rewrite(c, its) }},
 		{Name: "reset-and-reuse", Run: reuse},
+		{Name: "reader-kinds", Run: func(c *seq.Ctx) { readerKinds(c, its) }},
 	}
 	// round trips are sharded by first item
 	for sh := 0; sh < 16; sh++ {
